@@ -82,6 +82,10 @@ def encode_rows(facts, R):
             if rb is None or rb[1] is None or rb[2] is None or not rb[1].is_const() or not rb[2].is_const():
                 R.bad("layout-table", b.path, "copy-range", "destination range is not constant", t.get("span"))
                 continue
+            if src[0] == "agg" and src[1] == "array" and len(src[3]) == 1 and src[3][0][1][0] == "field" and rb[2].c - rb[1].c == 1:
+                # a one-byte field written as the one-element array [self.field]
+                rows.append({"name": src[3][0][1][2], "offset": rb[1].c, "width": 1, "conv": "byte", "span": t.get("span"), "ty_width": 1})
+                continue
             if not (src[0] == "call" and src[1].rsplit("::", 1)[-1] in ("to_le_bytes", "to_be_bytes", "to_ne_bytes") and src[2][0][0] == "field"):
                 R.bad("layout-table", b.path, "copy-src", "bytes written are %s, not field.to_le_bytes()" % render(src), t.get("span"))
                 continue
